@@ -312,6 +312,13 @@ func (v tplVal) goValue() any {
 	}
 	return nil
 }
+// tplFloatExact: the integer a float64 binding really carries (what decoding the JSON number into float64 yields),
+// e.g. 2^63 for 2^63-1, 2^53 for 2^53+1: the case records that value, so the model's TpvFloat z is exact
+func tplFloatExact(z *big.Int) *big.Int {
+	f, _ := new(big.Float).SetInt(z).Float64()
+	out, _ := new(big.Float).SetFloat64(f).Int(nil)
+	return out
+}
 func tplJSONStr(s string) string {
 	var buf bytes.Buffer
 	enc := json.NewEncoder(&buf)
@@ -709,13 +716,15 @@ func (g *tplGen) value(typ, name string) tplVal {
 		return tplVal{K: "s", S: s}
 	case "int":
 		z := big.NewInt(int64(r.Intn(9)))
-		if r.Chance(10) {
-			z = Pick(r, []*big.Int{big.NewInt(50), big.NewInt(-1), new(big.Int).Lsh(big.NewInt(1), 53), new(big.Int).Lsh(big.NewInt(1), 63), tplBig("100000000000000000000")})
+		if r.Chance(18) { // magnitudes around 2^53 (float64 integer precision) and +-2^63 (int64 range), and beyond
+			z = tplBig(Pick(r, []string{"50", "-1", "9007199254740991", "9007199254740992", "9007199254740993", "-9007199254740993",
+				"9223372036854775807", "9223372036854775808", "9223372036854775809", "9223372036854777856", "-9223372036854775808",
+				"-9223372036854775809", "-9223372036854777856", "18446744073709551616", "100000000000000000000"}))
 		}
 		if r.Chance(50) {
 			return tplVal{K: "n", Z: z}
 		}
-		return tplVal{K: "f", Z: z}
+		return tplVal{K: "f", Z: tplFloatExact(z)}
 	}
 	switch name {
 	case "id":
@@ -1121,13 +1130,8 @@ func tplExpected(c tplCase) tplExpect {
 						sb.WriteString(fmt.Sprint(v.B))
 					case "n":
 						sb.WriteString(v.Z.String())
-					case "f":
-						if dev && !v.Z.IsInt64() {
-							devs["[interpolate-int-overflow]"] = true
-							sb.WriteString("-9223372036854775808")
-						} else {
-							sb.WriteString(v.Z.String())
-						}
+					case "f": // exact rendering of the integral float64 (fixes/filter-07); no known deviation any more
+						sb.WriteString(v.Z.String())
 					default:
 						bad = true
 					}
